@@ -510,11 +510,54 @@ func c03NeighbourHistory(c *Ctx) {
 	}
 }
 
+// c04StepWalk: validation with one key and parameter set along a walk over adjacent steps (stepWalkOffsets); at
+// each instant the own step's code, a code just inside and one just outside the window are submitted.
+func c04StepWalk(c *Ctx) {
+	rng := c.RNG.Fork(404)
+	for w := 0; w < c.N(10, 120); w++ {
+		p := gen.Pick(rng, []uint64{0, 1, 30, 30, 60})
+		pp := int64(p)
+		if pp == 0 {
+			pp = 30
+		}
+		baseStep := 1000 + int64(rng.Intn(1<<30))
+		key := rng.Bytes(20)
+		d, a := 6+rng.Intn(5), rng.Intn(3)
+		skew := uint64(rng.Intn(4))
+		for _, off := range stepWalkOffsets(rng, c.N(300, 1200)) {
+			step := uint64(baseStep + off)
+			subs := []string{ref.HOTP(key, step, d, a), ref.HOTP(key, step-skew, d, a), ref.HOTP(key, step+skew+1, d, a), ref.HOTP(key, step-skew-1, d, a)}
+			judgeVTOTP(c, vtotpCase{KeyHex: hexs(key), Secret: ref.Base32EncodeNoPad(key), At: gen.InstantSpec{Unix: int64(step)*pp + int64(rng.Intn(int(pp))), Zone: 0}, Period: p, Skew: skew, Digits: uint8(d), Algo: uint8(a),
+				Submitted: hexAll(subs), Notes: []string{"own step (adjacent-step walk)", "lowest step of the window (walk)", "first step above the window (walk)", "first step below the window (walk)"}})
+			c.R.Count("adjacent_step_walk_calls", 1)
+		}
+	}
+}
+
+// c03CounterWalk: validation with one key and parameter set along a walk over adjacent counters.
+func c03CounterWalk(c *Ctx) {
+	rng := c.RNG.Fork(314)
+	for w := 0; w < c.N(10, 120); w++ {
+		base := gen.Pick(rng, []uint64{1000, 1 << 31, 1 << 32, 1 << 62, uint64(1000 + rng.Intn(1<<30))})
+		key := rng.Bytes(20)
+		d, a := 6+rng.Intn(5), rng.Intn(3)
+		skew := uint64(rng.Intn(4))
+		for _, off := range stepWalkOffsets(rng, c.N(300, 1200)) {
+			ctr := base + uint64(off)
+			subs := []string{ref.HOTP(key, ctr, d, a), ref.HOTP(key, ctr-skew, d, a), ref.HOTP(key, ctr+skew+1, d, a), ref.HOTP(key, ctr-skew-1, d, a)}
+			judgeVHOTP(c, vhotpCase{KeyHex: hexs(key), Secret: ref.Base32EncodeNoPad(key), Counter: ctr, Skew: skew, Digits: uint8(d), Algo: uint8(a), Submitted: hexAll(subs),
+				Notes: []string{"own counter (adjacent-counter walk)", "lowest counter of the window (walk)", "first counter above the window (walk)", "first counter below the window (walk)"}})
+			c.R.Count("adjacent_counter_walk_calls", 1)
+		}
+	}
+}
+
 func runC04(c *Ctx) {
 	bt := newBatcher(c, judgeVTOTP, 97)
 	c04Cases(c, bt.add)
 	bt.flush()
 	cases := bt.keep
+	c04StepWalk(c)
 
 	// bounded work. (i) functional, affordable skews: a validator that does not refuse answers (true, nil).
 	small := refusedSkewCases(c, []uint64{11, 12, 100, 10000})
@@ -585,6 +628,7 @@ func init() {
 			c03Cases(c, b.add)
 			b.flush()
 			c03NeighbourHistory(c)
+			c03CounterWalk(c)
 		},
 		Replay: func(c *Ctx, kind string, raw json.RawMessage) error {
 			return replayAs(raw, func(k vhotpCase) { judgeVHOTP(c, k) })
